@@ -54,7 +54,11 @@ func ZZ_C04_resolver_pair() {
 		size = 1000
 	}
 	k2 := "n"
-	if zzBool("layout.tworegions") {
+	two := size > 1 // quick: large transactions across two regions, small ones in one
+	if zzParam("tier", 0) == 1 {
+		two = zzBool("layout.tworegions")
+	}
+	if two {
 		k2 = "t"
 	}
 	locks := []*Lock{
